@@ -340,7 +340,12 @@ class Setup:
                         world.accept(rbB, realB, cs=world.cs)
                         while len(mw.send_queues) < 2:
                             mw.send_queues.append(StubQueue())
-                        quiet(mw.handle_request_scrypt_input_message, 1, (nonce + 77) & 0xFFFFFFFF)
+                        if self.rng.random() < 0.5:
+                            quiet(mw.handle_request_scrypt_input_message, 1, (nonce + 77) & 0xFFFFFFFF)
+                        else:
+                            # ... or nobody asks for work in between: the watcher still holds the view it had when it built
+                            # the candidate, and hands the network layer that view plus the found block
+                            c["found_after_the_head_moved_with_stale_view"] = c.get("found_after_the_head_moved_with_stale_view", 0) + 1
                         self.late_sibling = True
                         c["found_after_the_head_moved"] = c.get("found_after_the_head_moved", 0) + 1
                 except Exception:
